@@ -37,7 +37,8 @@ MANIFEST_TEXT = ('Every dataset profile of n = 1..7 (quick) / 1..10 (thorough) s
                  'chromosomes {pileup sum/data, mask data, two reductions sharing a node, histogram reduction, values under '
                  'intervals: row max and column mean} evaluated with bnp.compute: streamed result == in-memory result; '
                  're-chunking yields chunks of exactly n\' except a last chunk of 1..n\'. Long entries: four sequences of 400 001 bases x all 8 '
-                 'chunkings (chunks of 0.4 to 1.6 million k-mers) x count_kmers k = 1, 2 against whole-array NumPy counts.')
+                 'chunkings (chunks of 0.4 to 1.6 million k-mers) x count_kmers k = 1, 2 against whole-array NumPy counts. For chunkings with <= 2 cuts also '
+                 'a chunk without entries at the start, after the first chunk and at the end of the stream.')
 MANIFEST_NOTE = 'Trusted: NumPy; the in-memory evaluation of the same library function is the reference (differential).'
 TECHNIQUE = 'bounded exhaustive enumeration of all chunkings x computations, differential against in-memory evaluation'
 
@@ -106,9 +107,13 @@ def chunks_of(rows, cuts):
     return [rows[a:c] for a, c in zip(b[:-1], b[1:])]
 
 
-def mk_stream(rows, cuts):
+def mk_stream(rows, cuts, empty_at=None):
+    """empty_at: position at which a chunk WITHOUT entries is inserted (a chunk in which nothing passed a filter)"""
     from bionumpy.streams import NpDataclassStream
-    return NpDataclassStream(iter([mk(c) for c in chunks_of(rows, cuts)]), dataclass=entry_class())
+    chunks = chunks_of(rows, cuts)
+    if empty_at is not None:
+        chunks.insert(min(empty_at, len(chunks)), [])
+    return NpDataclassStream(iter([mk(c) for c in chunks]), dataclass=entry_class())
 
 
 def val(v):
@@ -165,12 +170,14 @@ def comp_registry():
     return reg, lens
 
 
-def run_stream_case(res, profile, cuts, cname, reg):
+def run_stream_case(res, profile, cuts, cname, reg, empty_at=None):
     rows = dataset_rows(profile)
-    case = {'part': 'stream', 'profile': list(profile), 'cuts': list(cuts), 'comp': cname}
+    case = {'part': 'stream', 'profile': list(profile), 'cuts': list(cuts), 'comp': cname, 'empty_at': empty_at}
     splits_group = any(0 < sum(profile[:g + 1]) != c and True for c in cuts for g in range(len(profile))) and \
         any(c not in {sum(profile[:g + 1]) for g in range(len(profile))} for c in cuts)
     feats = {'comp': cname, 'cut_inside_group': bool(splits_group), 'single_chunk': len(cuts) == 0}
+    if empty_at is not None:
+        feats['empty_chunk'] = 'first' if empty_at == 0 else ('last' if empty_at > len(cuts) else 'middle')
     import bionumpy as bnp
     res.evaluations += 1
     res.states += 1
@@ -192,9 +199,9 @@ def run_stream_case(res, profile, cuts, cname, reg):
         return
     try:
         if cname == 'revcomp':
-            got = tuple(x for c in bnp.sequence.get_reverse_complement(mk_stream(rows, cuts).seq) for x in observe.column(c))
+            got = tuple(x for c in bnp.sequence.get_reverse_complement(mk_stream(rows, cuts, empty_at).seq) for x in observe.column(c))
         else:
-            got = reg[cname](mk_stream(rows, cuts))
+            got = reg[cname](mk_stream(rows, cuts, empty_at))
     except observe.ObserverError:
         raise
     except Exception as e:
@@ -469,6 +476,11 @@ def run_shard(desc, deadline):
                 return res
             for cname in reg:
                 run_stream_case(res, profile, cuts, cname, reg)
+            if len(cuts) <= 2:
+                # a chunk without entries at the start, after the first chunk and at the end of the stream
+                for empty_at in sorted({0, 1, len(cuts) + 1}):
+                    for cname in reg:
+                        run_stream_case(res, profile, cuts, cname, reg, empty_at)
             for n2 in range(1, n + 2):
                 run_rechunk_case(res, profile, cuts, n2)
             if len(cuts) <= 2:
@@ -502,7 +514,7 @@ def replay_case(case):
             run_big_case(res, tuple(case['cuts']), case['k'])
     elif case['part'] == 'stream':
         reg, _ = comp_registry()
-        run_stream_case(res, profile, cuts, case['comp'], reg)
+        run_stream_case(res, profile, cuts, case['comp'], reg, case.get('empty_at'))
     elif case['part'] == 'chunk_entries':
         run_rechunk_case(res, profile, cuts, case['n2'])
     elif case['part'] == 'chunk_lines':
